@@ -180,6 +180,35 @@ def accessor_like(F, f):
     return False
 
 
+def projector_like(F, f):
+    """a public inherent method of an enum that only matches on `self` and returns, per variant, one of that variant's fields
+    or a constant (`pub fn high(&self) -> Rank { match *self { Pocket(r) => r, Suited(h, _) | Ofsuit(h, _) => h } }`): spliced
+    into its crate-local callers, whose path-sensitive models then see the variant test and the field.  The reference tree
+    has none."""
+    if f.kind != "AssocFn" or f.d.get("vis") != "pub" or not f.impl or f.impl.get("trait") or f.arg_count != 1:
+        return False
+    self_ty = f.local_ty(1).lstrip("&").replace("mut ", "")
+    if not self_ty.startswith(f.impl["self_ty"].split("<")[0]) or self_ty not in F.adts or F.adts[self_ty].get("kind") != "Enum":
+        return False
+    if f.cfg.has_loops() or any(True for bi, _t in f.calls() if bi in f.cfg.reachable):
+        return False
+    sw = [b["term"] for i, b in enumerate(f.blocks) if i in f.cfg.reachable and b["term"]["k"] == "switch"]
+    if len(sw) != 1:
+        return False
+    from . import prov as P_
+    t = P_.strip(P_.Prov(f).operand(sw[0]["on"]))
+    if not (t[0] == "discr" and P_.strip(t[1]) in (("param", 1), ("deref", ("param", 1)))):
+        return False
+    # every statement is a plain copy of a (variant) field of self, a constant, or a move between locals
+    for i, b in enumerate(f.blocks):
+        if i not in f.cfg.reachable:
+            continue
+        for st in b["stmts"]:
+            if st.get("k") != "assign" or not (set(st["rv"]) <= {"use", "discr"}):
+                return False
+    return True
+
+
 def helper_paths(F, closures_only=False):
     """crate-local functions that may be spliced: restricted visibility, not an anchor, not (mutually) recursive"""
     if closures_only:
@@ -188,7 +217,7 @@ def helper_paths(F, closures_only=False):
     else:
         anchors = anchor_paths(F)
         cand = {p for p, f in F.fns.items()
-                if f.kind in ("Fn", "AssocFn") and (f.d.get("vis") == "restricted" or accessor_like(F, f)) and p not in anchors
+                if f.kind in ("Fn", "AssocFn") and (f.d.get("vis") == "restricted" or accessor_like(F, f) or projector_like(F, f)) and p not in anchors
                 and len(f.blocks) <= MAX_BLOCKS}
     # drop recursive helpers (direct or through other helpers)
     def callees(p):
